@@ -104,6 +104,22 @@ func (g *storeGen) appendOp() storeOp {
 		for h := start; h < start+k && h <= n; h++ {
 			hs = append(hs, h)
 		}
+	case mode < 62 && g.top > 0: // starts right above the top, k repeated headers and a hole of exactly k heights, the last one highest
+		a := 1 + r.intn(3)        // contiguous heights before the repeats
+		k := uint64(1 + r.intn(2)) // repeats = width of the hole
+		h := g.top
+		for i := 0; i < a; i++ {
+			h++
+			hs = append(hs, h)
+		}
+		for i := uint64(0); i < k; i++ {
+			hs = append(hs, h)
+		}
+		h += k
+		for i := 0; i < 1+r.intn(2); i++ {
+			h++
+			hs = append(hs, h)
+		}
 	case mode < 70: // leave a gap
 		start := g.top + 2 + uint64(r.intn(2))
 		for h := start; h < start+uint64(1+r.intn(2)) && h <= n; h++ {
